@@ -148,6 +148,11 @@ def run_case(seed):
     count(f"levels={pf.nlevels}")
     for lk in pf.meta['layouts']:
         count(f"layout={lk}")
+    stg, gb = model.call('goodb', pf_sx)
+    count(f"hypothesis 'good' of the tool theorem holds={stg == 'ok' and gb == 1}")
+    if not (stg == 'ok' and gb == 1):
+        out['disagreements'].append(dict(seed=seed, kind='hypothesis', what="the generated plotfile does not satisfy 'good' (goodb = false)",
+                                         meta=pf.meta, correspondence='Writers.GoodB.goodb'))
     for k in range(2):
         rkind, ncomp, tmpl = pick_recipe(rng, seed, k)
         a, b = rng.choice(keys), rng.choice(keys)
@@ -442,6 +447,9 @@ def run(tier, seed):
                    not any(v[0].get('kind') == 'model-vs-impl' for v in rep.violations))
     rep.obligation('correspondence: Abstract.pf_disk of the abstract plotfile handed to the specification = the directory on disk',
                    not any(v[0].get('kind') in ('encode', 'spec') for v in rep.violations))
+    rep.obligation("hypotheses of C11_tool on every generated plotfile: goodb = true (proved sound for 'good'; the theorem needs its "
+                   "wf_plotfile and std_dirs parts) and recipe_fitsb = true",
+                   not any(v[0].get('kind') == 'hypothesis' for v in rep.violations))
     rep.obligation('theorem instance (C11_tool) on every user-recipe case: hypotheses evaluated (recipe_fitsb), chef (pf_disk pf) = '
                    'pf_disk (chef_spec pf) evaluated by the extracted code',
                    not any(v[0].get('kind') == 'spec-vs-model' for v in rep.violations))
